@@ -21,6 +21,7 @@ RULE = (
     'normalised name with different priorities and an update/removal follows; (vars): a name is used in two '
     'spellings; distinct by operation sequence. escaped: deterministic scenarios with hex-escaped and backslash-escaped names and values '
     '(double set + membership + removal, iteration, update versus fresh set, variables set / serialise) against the same map discipline.'
+    ' Values also hold characters Python calls white space but CSS calls name characters (NBSP, U+3000, U+2003) at either end.'
 )
 ASSUMPTIONS = [
     'value canonical forms come from a fixed hand-checked table (spelling -> canonical), not from the library',
